@@ -14,8 +14,10 @@ S — specification for C16 (URI ↔ options), written from RFC 3986 (§2.1 perc
 --   splitter called directly with a malformed escape returns is left open (libcoap drops the segment resp. keeps
 --   the '%'); such inputs are still run: the model must agree with the code and nothing may be read out of bounds.
 -- SPEC DECISION D16b: coap_split_path / coap_split_query document a minimum output buffer (input length + a header
---   per segment).  S fixes their result for buffers of at least `length + 3·segments` bytes; for smaller buffers
---   only memory safety and the agreement of model and code are checked (libcoap omits what does not fit).
+--   per segment).  S fixes their result for buffers of at least `length + 3·segments` bytes (proved enough:
+--   `length + 2·segments + 1`; the documented `length + 2·segments` if no decoded segment reaches 269 bytes); for
+--   smaller buffers only memory safety (nothing is written past the buffer) and the agreement of model and code are
+--   demanded: libcoap omits what does not fit.
 -- SPEC DECISION D16c: '.' and '..' are resolved as RFC 3986 §5.2.4 does on complete segments ("%2E" ≡ "."),
 --   except that a *final* "." / ".." leaves no trailing empty segment (the property asks only that dot segments
 --   are resolved and never emitted).  A ".." with nothing before it is ignored (as in §5.2.4).
@@ -24,6 +26,11 @@ S — specification for C16 (URI ↔ options), written from RFC 3986 (§2.1 perc
 -- SPEC DECISION D16e: a URI whose authority is directly followed by '?' ("coap://h?q", empty path) is well formed
 --   (RFC 3986 §3.3 path-abempty).  Input after '#' is not part of path or query (§3.5); coap_split_uri itself does
 --   not know '#': a fragment stays inside the path / query string and is cut off by the component splitters.
+-- SPEC DECISION D16f: a URI whose authority starts with "%2F" / "%2f" (libcoap's notation for a Unix domain socket in
+--   place of a host; also a bracketed literal starting with '/') is outside S (`unixAuthority`, `unixHost`).
+-- SPEC DECISION D16g: Uri-Host = the host percent-decoded, then in ASCII lower case; it is omitted iff the URI has no
+--   authority or the host text (an IPv6 zone identifier not counting) equals the text of the destination address;
+--   Uri-Port is omitted iff the port is the scheme's default (see the section on RFC 7252 §6.4 steps 5–9 below).
 -/
 namespace Coap.Spec.Uri
 open Coap
@@ -226,5 +233,76 @@ def splitUri (schemes : List (Bytes × Nat × Bool × Nat)) (proxy : Bool) (s : 
               match pathQuery rest2 with
               | none => none
               | some (p, q) => some ⟨id, h, (match port with | some n => n | none => dport), p, q⟩
+
+/-! ### the part of the input space S does not speak about (D16f) -/
+
+/-- the authority starts with "%2F" / "%2f": libcoap's notation for a Unix domain socket in place of a host -/
+def unixStart (p : Bytes) : Bool :=
+  match p with
+  | a :: b :: c :: _ => a == 0x25 && b == 0x32 && (c == 0x46 || c == 0x66)
+  | _ => false
+
+/-- SPEC DECISION D16f: the URI has a scheme and its authority starts with "%2F" / "%2f" -/
+def unixAuthority (s : Bytes) : Bool :=
+  match s with
+  | [] => false
+  | c :: _ =>
+    if c = 0x2f then false else
+    match findSchemeEnd s with
+    | some nr => unixStart nr.2
+    | none => false
+
+/-- D16f for a parsed host: "%2F…" or (from a bracketed literal) "/…" -/
+def unixHost (h : Bytes) : Bool := unixStart h || h.head? == some 0x2f
+
+/-! ### RFC 7252 §6.4 steps 5–9: the options of a request for a parsed URI
+
+-- SPEC DECISION D16g: Uri-Host carries the host percent-decoded and in ASCII lower case.  RFC 7252 §6.4 step 5 lower-cases
+--   first and decodes then; the two orders differ only for a percent-encoded upper-case letter ("%41"), which a
+--   normalised URI does not contain (RFC 3986 §6.2.2.2) and which names the same host either way (§3.2.2: the host
+--   is case-insensitive).  The host is "the request's destination IP address as an IP-literal or IPv4address"
+--   (step 5) iff its text — without an IPv6 zone identifier, RFC 6874 — equals the canonical text `dst` of the
+--   destination address.  Step 7 compares the port with the destination port; S follows the property text
+--   ("default ports are recognised"): Uri-Port is present iff the port is not the scheme's default. -/
+
+def lowerAscii (c : UInt8) : UInt8 := if 65 ≤ c.toNat ∧ c.toNat ≤ 90 then UInt8.ofNat (c.toNat + 32) else c
+
+/-- the address part of a host: everything before an IPv6 zone identifier ("%25eth0"; libcoap also takes "%eth0") -/
+def hostAddr (h : Bytes) : Bytes := (breakAt (· == 0x25) h).1
+
+/-- uint option value (RFC 7252 §3.2: big-endian, no leading zero bytes) of a 16-bit port -/
+def portBytes (p : Nat) : Bytes :=
+  if p = 0 then [] else if p < 256 then [UInt8.ofNat p] else [UInt8.ofNat (p / 256), UInt8.ofNat (p % 256)]
+
+def schemeDefaultPort (schemes : List (Bytes × Nat × Bool × Nat)) (id : Nat) : Nat :=
+  match schemes.find? (fun e => e.2.2.2 == id) with
+  | some e => e.2.1
+  | none => 5683
+
+/-- step 5: Uri-Host unless the URI has no authority or the host is the destination address literal;
+`none` = the host has a malformed escape (outside S, D4) -/
+def hostOption (dst host : Bytes) : Option (List (Nat × Bytes)) :=
+  if host = [] ∨ hostAddr host = dst then some []
+  else match pctDecode host with
+       | some h => some [(3, h.map lowerAscii)]
+       | none => none
+
+/-- steps 6/7 -/
+def portOption (schemes : List (Bytes × Nat × Bool × Nat)) (scheme port : Nat) : List (Nat × Bytes) :=
+  if port ≠ schemeDefaultPort schemes scheme then [(7, portBytes port)] else []
+
+/-- step 8: no Uri-Path for an empty path (or a single slash) -/
+def pathOptions (path : Bytes) : Option (List Bytes) := if path = [] then some [] else splitPath path
+/-- step 9 -/
+def queryOptions (query : Bytes) : Option (List Bytes) := if query = [] then some [] else splitQuery query
+
+/-- (option number, value) in the order of the steps; `dst` = text of the request's destination address.
+`none` = outside S (Unix-socket host D16f, malformed escape D4/D16a). -/
+def uriOptions (schemes : List (Bytes × Nat × Bool × Nat)) (dst : Bytes) (u : UriParts) : Option (List (Nat × Bytes)) :=
+  if unixHost u.host then none else
+  match hostOption dst u.host, pathOptions u.path, queryOptions u.query with
+  | some ho, some ps, some qs =>
+    some (ho ++ portOption schemes u.scheme u.port ++ ps.map (fun v => (11, v)) ++ qs.map (fun v => (15, v)))
+  | _, _, _ => none
 
 end Coap.Spec.Uri
